@@ -39,11 +39,14 @@ pub struct Opts {
     pub generics: bool,
     /// ASCII-only lexemes (C11 measures width in bytes = chars = columns)
     pub ascii_only: bool,
+    /// wrap whole statements / declarations / uses items in conditional directives, and
+    /// place compiler directives between declarations and statements
+    pub directives: bool,
 }
 
 impl Default for Opts {
     fn default() -> Self {
-        Opts { mlstr: false, asm: false, anon: true, generics: true, ascii_only: false }
+        Opts { mlstr: false, asm: false, anon: true, generics: true, ascii_only: false, directives: true }
     }
 }
 
@@ -150,6 +153,51 @@ impl<'a, 'b> B<'a, 'b> {
     fn spend(&mut self) -> bool {
         self.fuel -= 1;
         self.fuel > 0 && !self.t.exhausted()
+    }
+
+    fn directive(&mut self, text: &str) {
+        let kind = {
+            let l = text.to_ascii_lowercase();
+            if ["{$if", "{$else", "{$endif", "{$ifend", "(*$if", "(*$else", "(*$endif"].iter().any(|p| l.starts_with(p)) {
+                Kind::DirectiveCond
+            } else {
+                Kind::DirectiveCompiler
+            }
+        };
+        self.nl();
+        let save = self.depth;
+        self.depth = 0;
+        let i = self.push(text, kind) as usize;
+        self.p.toks[i].inserted = true;
+        self.depth = save;
+        self.nl();
+    }
+
+    /// Opening conditional directive; returns the matching closer.
+    fn cond_open(&mut self) -> &'static str {
+        self.tag("conditional-directive");
+        let (o, c) = *self.t.pick(&[
+            ("{$IFDEF DEBUG}", "{$ENDIF}"),
+            ("{$ifdef A}", "{$endif}"),
+            ("{$IFNDEF B}", "{$ENDIF}"),
+            ("{$IF Defined(X) and (Y > 2)}", "{$IFEND}"),
+            ("{$if CompilerVersion >= 30}", "{$endif}"),
+            ("(*$IFDEF Z*)", "(*$ENDIF*)"),
+            ("{$IFOPT C+}", "{$ENDIF}"),
+        ]);
+        self.directive(o);
+        c
+    }
+
+    fn cond_else(&mut self) {
+        let e = *self.t.pick(&["{$ELSE}", "{$else}", "{$ELSEIF Defined(Q)}", "(*$ELSE*)"]);
+        self.directive(e);
+    }
+
+    fn compiler_directive(&mut self) {
+        self.tag("compiler-directive");
+        let d = *self.t.pick(&["{$R *.res}", "{$define FOO}", "{$WARNINGS OFF}", "{$I inc.inc}", "{$R+}", "{$REGION 'x'}", "{$hints on}"]);
+        self.directive(d);
     }
 
     // ---------------------------------------------------------------- expressions
@@ -437,6 +485,26 @@ impl<'a, 'b> B<'a, 'b> {
         self.blocks += 1;
         let n = if self.fuel <= 0 { 0 } else { self.t.below(5) };
         for i in 0..n {
+            if self.opts.directives && self.anon == 0 && self.fuel > 4 && self.t.chance(1, 14) {
+                if self.t.chance(1, 4) {
+                    self.compiler_directive();
+                } else {
+                    // {$IFDEF} S1; [{$ELSE} S2;] {$ENDIF}
+                    let closer = self.cond_open();
+                    let first = self.p.toks.len() as u32;
+                    self.stmt(false);
+                    self.mark(first, opener, 0);
+                    self.op(";");
+                    if self.t.chance(1, 2) {
+                        self.cond_else();
+                        let first = self.p.toks.len() as u32;
+                        self.stmt(false);
+                        self.mark(first, opener, 0);
+                        self.op(";");
+                    }
+                    self.directive(closer);
+                }
+            }
             self.nl();
             let first = self.p.toks.len() as u32;
             let last = i + 1 == n;
@@ -1147,6 +1215,20 @@ impl<'a, 'b> B<'a, 'b> {
             if self.fuel <= 0 {
                 break;
             }
+            let wrap = self.opts.directives && self.t.chance(1, 8);
+            let closer = if wrap { Some(self.cond_open()) } else { None };
+            if self.opts.directives && !wrap && self.t.chance(1, 10) {
+                self.compiler_directive();
+            }
+            self.decl_one(interface);
+            if let Some(c) = closer {
+                self.directive(c);
+            }
+        }
+    }
+
+    fn decl_one(&mut self, interface: bool) {
+        {
             match self.t.below(if interface { 4 } else { 6 }) {
                 0 => {
                     let tv = self.t.chance(1, 8);
@@ -1167,15 +1249,25 @@ impl<'a, 'b> B<'a, 'b> {
         self.nl();
         self.kw("uses");
         let n = 1 + self.t.below(4);
+        let mut comma_done = false;
         for i in 0..n {
-            if i > 0 {
+            if i > 0 && !comma_done {
                 self.op(",");
             }
+            comma_done = false;
+            let wrap = self.opts.directives && i + 1 < n && self.t.chance(1, 6);
+            let closer = if wrap { Some(self.cond_open()) } else { None };
             let u = *self.t.pick(&["SysUtils", "Classes", "System", "Generics", "MyUnit", "Winapi"]);
             self.named(u);
             if self.t.chance(1, 4) {
                 self.op(".");
                 self.named("Collections");
+            }
+            if let Some(c) = closer {
+                // the comma belongs to the conditional part: `A, {$IFDEF X} B, {$ENDIF} C;`
+                self.op(",");
+                self.directive(c);
+                comma_done = true;
             }
         }
         self.op(";");
